@@ -547,7 +547,10 @@ class Runner:
     t_strings = dict(hide="\x1b[?25l", show="\x1b[?12l\x1b[?25h", alt_on="\x1b[?1049h", alt_off="\x1b[?1049l")
 
     def note_strings(self, w):
-        t = w.t
+        try:
+            t = w.t
+        except AttributeError:          # the blessed terminal is kept elsewhere: the xterm defaults above stay in force
+            return
         Runner.t_strings = dict(hide=str(t.hide_cursor), show=str(t.normal_cursor), alt_on=str(t.enter_fullscreen),
                                 alt_off=str(t.exit_fullscreen))
 
